@@ -3,3 +3,15 @@ chk('C09','exploration',
  'Snapshot monitor around every call made through rofs.RoFS, through the RoFiles it returns and through what RoFS.Sub returns: the full snapshot of the base (tree, bytes, modes, owners, mtimes) must be identical before and after; mutating calls must fail with a permission-class error; read-only calls must equal the same call on a twin base. Random trees and random histories over all VFS/File methods; held on the executions observed.',
  'bases are MemFS and OrefaFS; Sync on a RoFile is judged on the snapshot only; Chdir/SetUMask are view state',
  'before/after snapshot monitor + twin-instance differential','DESIGN.md §5 C09')
+chk('C16','fault_enumeration',
+ 'Exhaustive single-fault enumeration through FailFS on the source and on the destination side of CopyFile / CopyFileHash / HashFile for every scenario (function x fs pair x size around the 32 KiB buffer x mode): a nil error must imply byte-equal destination, equal permission bits and the right digest (read back through the base file systems); a fault injected into a listed step must give a non-nil error.',
+ 'single faults only; a failing Close of the source is not in the statement (post-condition only); OsFS legs on tmpfs',
+ 'FailFS fault enumeration with read-back post-condition oracle','DESIGN.md §5 C16')
+chk('C15','exploration',
+ 'Reference-model monitor: every return value of random sequential histories is checked against a two-map model, with a full by-name/by-id lookup sweep and the internal-map invariant hook after each call; concurrent histories run under the deterministic lock-hook scheduler (all schedules up to 2 preemptions, capped, plus random ones) and the recorded call/return events are checked for linearizability by porcupine against the same model.',
+ 'a fresh id is any id never handed out before; histories are short (<= 16 concurrent calls); porcupine Unknown = inconclusive',
+ 'reference model + porcupine linearizability over scheduler-forced histories','DESIGN.md §5 C15')
+chk('C13','exploration',
+ 'Differential against the toolchain: Linux-typed MemFS vs path/filepath of the host, Windows-typed MemFS vs a copy of the toolchain\'s own Windows filepath code generated at setup; exhaustive over all strings up to length 4 (quick) / 5 (thorough) and all pairs up to length 2 / 3 over a 13-symbol alphabet, then seeded random inputs; PathIterator equations checked on all clean absolute paths up to 6/7 symbols with every splice.',
+ 'built with -tags avfs_setostype; Windows Abs only where lexical; reference = the toolchain that builds the harness (go1.23.5)',
+ 'toolchain differential, bounded-exhaustive + random','DESIGN.md §5 C13')
